@@ -184,7 +184,7 @@ theorem Option.mapM_some {α β} (f : α → Option β) (g : α → β) (l : Lis
 
 theorem crossChainValid_noNul {p : Int} {cp : String} (h : crossChainValid p cp = true) : hasNul cp = false := by
   simp only [crossChainValid, validateCounterpartyID, Bool.and_eq_true, Bool.not_eq_true'] at h
-  exact h.2.1.1.2
+  exact h.2.1.1.1.2
 
 theorem natDigits_noNul (n : Nat) : ∀ c ∈ natDigits n, c ≠ Char.ofNat 0 := by
   intro c hc h
